@@ -48,11 +48,46 @@ def split_arms(body):
         arms.append((pat, body[k + 1:e])); i = e + 1
     return arms
 
+def metavars(pat):
+    """the metavariables of a macro pattern, in order: [(name, fragment)]"""
+    return re.findall(r'\$(\w+)\s*:\s*(\w+)', pat)
+def rename(text, mapping):
+    """renames $metavariables (mapping: old -> new) simultaneously"""
+    return re.sub(r'\$(\w+)', lambda m: '$' + mapping.get(m.group(1), m.group(1)), text)
+def canon_full_arm(pat, body):
+    """positional names for the arm `($idt:expr, $handler:ident, $range:expr, 8 x $bit:tt)`"""
+    mv = metavars(pat)
+    if len(mv) != 11 or [f for _, f in mv[3:]] != ['tt'] * 8: die('unexpected parameters of the IDX arm: %r' % (mv,))
+    mapping = {mv[0][0]: 'idt', mv[1][0]: 'handler', mv[2][0]: 'range'}
+    for k, (n, _) in enumerate(mv[3:]): mapping[n] = 'bit%d' % (7 - k)
+    if len(mapping) != 11: die('repeated parameter names in the IDX arm')
+    return rename(pat, mapping), rename(body, mapping)
+def canon_rec_arm(pat, body):
+    mv = metavars(pat)
+    if len(mv) != 4 or mv[3][1] != 'tt': die('unexpected parameters of the recursive arm: %r' % (mv,))
+    mapping = {mv[0][0]: 'idt', mv[1][0]: 'handler', mv[2][0]: 'range', mv[3][0]: 'bits'}
+    return rename(pat, mapping), rename(body, mapping)
+def canon_entry_arm(pat, body):
+    mv = metavars(pat)
+    if len(mv) not in (3, 4): die('unexpected parameters of an entry arm: %r' % (mv,))
+    mapping = {mv[0][0]: 'idt', mv[1][0]: 'handler', mv[2][0]: 'idx'}
+    if len(mv) == 4: mapping[mv[3][0]] = '_bits'
+    pat, body = rename(pat, mapping), rename(body, mapping)
+    # the stub: its own name and the names of its parameters are immaterial
+    fn = re.search(r'extern\s+"x86-interrupt"\s+fn\s+(\w+)\s*\(([^)]*)\)', body)
+    if fn:
+        names = {fn.group(1): 'handler'}
+        ps = [q.strip() for q in fn.group(2).split(',') if q.strip()]
+        for k, q in enumerate(ps[:2]):
+            names[q.split(':')[0].strip()] = ['frame', 'error_code'][k]
+        body = re.sub(r'(?<![\w$])(' + '|'.join(re.escape(n) for n in names) + r')(?!\w)', lambda m: names[m.group(1)], body)
+    return pat, body
+
 # ---- recursive_bits: the parameter order and the IDX expression
 rb = split_arms(macro_body('set_general_handler_recursive_bits'))
 full = [a for a in rb if 'const IDX' in a[1]]
 if len(full) != 1: die('expected exactly one arm defining IDX')
-pat, body = full[0]
+pat, body = canon_full_arm(*full[0])
 params = re.findall(r'\$(bit\d)\s*:\s*tt', pat)
 if len(params) != 8 or len(set(params)) != 8: die('expected 8 distinct bit parameters, got %r' % params)
 m = re.search(r'const IDX\s*:\s*u8\s*=\s*([^;]*);', body)
@@ -71,12 +106,13 @@ cargs = [a.strip() for a in call.group(1).split(',')]
 if cargs[:3] != ['$idt', '$handler', 'IDX'] or cargs[3:] != ['$' + p for p in params]: die('unexpected arguments to set_general_handler_entry!: %r' % cargs)
 other = [a for a in rb if 'const IDX' not in a[1]]
 if len(other) != 1: die('expected one recursive arm')
-rec_calls = re.findall(r'set_general_handler_recursive_bits!\s*\(\s*\$idt\s*,\s*\$handler\s*,\s*\$range\s*\$\(\s*,\s*\$bits\s*\)\s*\*\s*,\s*([01])\s*\)', other[0][1])
+rec_calls = re.findall(r'set_general_handler_recursive_bits!\s*\(\s*\$idt\s*,\s*\$handler\s*,\s*\$range\s*\$\(\s*,\s*\$bits\s*\)\s*\*\s*,\s*([01])\s*\)', canon_rec_arm(*other[0])[1])
 if rec_calls != ['0', '1']: die('the recursive arm must append 0 and then 1: %r' % rec_calls)
 
 # ---- entry arms
 arms = []
 for pat, body in split_arms(macro_body('set_general_handler_entry')):
+    pat, body = canon_entry_arm(pat, body)
     toks = [t.strip() for t in pat.split(',')]
     if not (toks[0].startswith('$idt') and toks[1].startswith('$handler') and toks[2].startswith('$idx')): die('unexpected arm head: ' + pat)
     rest = toks[3:]
